@@ -91,7 +91,7 @@ def code_to_spec(chk, cfgs, make_reals, tag='', solvers=('SCIPY', None), split=N
                 real.assets = None
                 real.prices = {}
                 sel = dict(check='trace', family=tag, solver=str(solver), calendar=real.calendar, mtu=real.mtu,
-                           route=('split:' + split) if split else 'mono')
+                           route=('split:' + (cfg.get('interval', '?') if split == 'cfg' else split)) if split else 'mono')
                 sel.update(cfg_features(cfg))
                 try:
                     op, res, out = REC.run_pipeline(real, solver=solver, split=split)
